@@ -43,7 +43,8 @@ pub fn one(ctx: &mut Ctx, input: &str, ext_bits: u32, conv: u8) {
             ctx.case(format!("metaonly {ext_bits} {conv} {}", enc_text(input)), reply, nontrivial, desc.clone());
         }
     }
-    if fm { let h = crate::util::hash64(input); crate::fm::fm_case(ctx, input, ext_bits, conv, (h % 4) as u8); }
+    // (without front matter: the `>>` arm under a validator, sampled)
+    { let h = crate::util::hash64(input); if fm || (input.contains(">>") && h % 5 == 0) { crate::fm::fm_case(ctx, input, ext_bits, conv, if fm { (h % 4) as u8 } else { 1 + (h / 5 % 3) as u8 }); } }
     if let (Ok(m), Ok(f)) = (&meta, &full) {
         match (m.output(), f.output()) {
             (Some(a), Some(b)) => {
